@@ -335,6 +335,7 @@ static void op_uopen()
   int u = (int)tok_int(), bindit = (int)tok_int(), nbf = (int)tok_int();
   if(u < 1 || u > NU) die("uopen: bad index");
   delete us[u]; us[u] = new Socket; unb[u] = 0; uport[u] = 0;
+  for(int k = 1; k <= ndg; ++k) if(dg[k].to == u) dg[k].got = 1;       // what was in flight to the old socket is gone
   bool ok = us[u]->open(Socket::udpProtocol);
   uint32 ip = 0; uint16 port = 0;
   if(ok && bindit) ok = us[u]->bind(Socket::loopbackAddress, 0) && us[u]->getSockName(ip, port);
@@ -409,6 +410,7 @@ static void op_uclose()
 {
   int u = (int)tok_int();
   if(u < 1 || u > NU || !us[u]) { skip("uclose: no such socket"); return; }
+  for(int k = 1; k <= ndg; ++k) if(dg[k].to == u) dg[k].got = 1;
   us[u]->close(); uopen_[u] = 0; uport[u] = 0;   // (datagrams keep their own source port, see Dg::sport)
   ev_begin("uclose"); j_int("u", u); j_bool("isopen", us[u]->isOpen()); j_end();
 }
